@@ -9,7 +9,12 @@
 //
 // Line protocol (see design/C01.md):
 //
-//	new <admit> <serve> <cap> <dnl ms> <fib alg> [ls]        => ok
+//	new <admit> <serve> <cap> <dnl ms> <fib alg> [ls [<n>]]  => ok
+//	     "ls <n>" (n = 2..4) = multi-thread mode: n real fw.Threads registered in dispatch.FWDispatch /
+//	     fw.Threads; the REAL link-service dispatch decides which thread(s) get a packet (name hash for
+//	     Interests, thread id of a 6-byte token / all prefix threads / exact-name thread for Data). The
+//	     I / D outputs then end in " | th=<Hash%n> ph=<PrefixHash[i]%n, i=0..len>" (the name hashes are
+//	     an oracle for the model's dispatch rule); counters are summed over the threads.
 //	     "ls" = ingress through the REAL link service: every Interest/Data is encoded as an NDNLPv2
 //	     frame (bare packet when it carries neither PIT token nor NextHopFaceId) and handed to a real
 //	     NDNLPLinkService over an in-memory transport of the face's scope (fw/face verif hooks of C10),
@@ -46,11 +51,12 @@ import (
 	"fmt"
 	"net"
 	"os"
-	"syscall"
 	"reflect"
 	"sort"
 	"strconv"
 	"strings"
+	"sync"
+	"syscall"
 	"testing"
 	"testing/synctest"
 	"time"
@@ -83,6 +89,7 @@ type fakeFace struct {
 }
 
 var sends []send
+var sendsMu sync.Mutex // several forwarding threads may send at the same virtual instant
 
 func (f *fakeFace) String() string          { return "fake-" + strconv.FormatUint(f.id, 10) }
 func (f *fakeFace) SetFaceID(id uint64)     { f.id = id }
@@ -96,15 +103,18 @@ func (f *fakeFace) State() defn.State       { return defn.Up }
 func (f *fakeFace) SendPacket(out dispatch.OutPkt) {
 	raw := append([]byte{}, out.Pkt.Raw...)
 	tok := append([]byte{}, out.PitToken...)
+	sendsMu.Lock()
 	sends = append(sends, send{face: f.id, raw: raw, token: tok})
+	sendsMu.Unlock()
 }
 
 // ---------------------------------------------------------------- state of one history
 
 var (
-	th       *fw.Thread
-	labels   map[uint32]int    // real 32-bit token -> label
-	labelVal []uint32          // label -> real token
+	th       *fw.Thread        // thread 0
+	threads  []*fw.Thread      // all forwarding threads (one unless multi-thread mode)
+	labels   map[uint64]int    // real token (thread id << 32 | 32-bit value) -> label
+	labelVal []uint64          // label -> real token
 	lastTok  map[string]int    // name text -> label most recently sent upstream for that name
 	logInit  bool
 	hashSeen map[uint64]string // A-hash check: name hash -> name text
@@ -146,9 +156,12 @@ func stopThread() {
 	}
 	core.ShouldQuit = true
 	time.Sleep(200 * time.Millisecond)
-	<-th.HasQuit
+	for _, t := range threads {
+		<-t.HasQuit
+	}
 	core.ShouldQuit = false
 	th = nil
+	threads = nil
 }
 
 func resetRegions() {
@@ -164,7 +177,14 @@ func newHistory(f []string) string {
 	resetRegions()
 	cfg := core.DefaultConfig()
 	cfg.Core.LogLevel = "FATAL"
-	cfg.Fw.Threads = 1
+	nThreads := 1
+	if len(f) == 8 {
+		nThreads = common.Atoi(f[7])
+		if f[6] != "ls" || nThreads < 1 || nThreads > 8 {
+			return "bad-op"
+		}
+	}
+	cfg.Fw.Threads = nThreads
 	cfg.Tables.ContentStore.Admit = b01(f[1])
 	cfg.Tables.ContentStore.Serve = b01(f[2])
 	cfg.Tables.ContentStore.Capacity = uint16(common.Atoi(f[3]))
@@ -178,14 +198,23 @@ func newHistory(f []string) string {
 	table.Configure()
 	table.CreateFIBTable(f[5])
 	fw.Configure()
-	th = fw.NewThread(0)
-	fw.Threads = []*fw.Thread{th}
-	dispatch.InitializeFWThreads([]dispatch.FWThread{th})
-	lsMode = len(f) == 7 && f[6] == "ls"
+	threads = nil
+	disp := []dispatch.FWThread{}
+	for k := 0; k < nThreads; k++ {
+		t := fw.NewThread(k)
+		threads = append(threads, t)
+		disp = append(disp, t)
+	}
+	th = threads[0]
+	fw.Threads = threads
+	dispatch.InitializeFWThreads(disp)
+	lsMode = len(f) >= 7 && f[6] == "ls"
 	lsFaces = map[uint64]*face.NDNLPLinkService{}
-	go th.Run()
+	for _, t := range threads {
+		go t.Run()
+	}
 	synctest.Wait()
-	labels = map[uint32]int{}
+	labels = map[uint64]int{}
 	labelVal = nil
 	lastTok = map[string]int{}
 	hashSeen = map[uint64]string{}
@@ -220,8 +249,30 @@ func optU(s string) (uint64, bool) {
 }
 
 func counters() string {
-	return fmt.Sprintf("oi=%d od=%d si=%d pit=%d cs=%d", th.NOutInterests, th.NOutData, th.NSatisfiedInterests,
-		th.GetNumPitEntries(), th.GetNumCsEntries())
+	var oi, od, si uint64
+	pit, cs := 0, 0
+	for _, t := range threads {
+		oi += t.NOutInterests
+		od += t.NOutData
+		si += t.NSatisfiedInterests
+		pit += t.GetNumPitEntries()
+		cs += t.GetNumCsEntries()
+	}
+	return fmt.Sprintf("oi=%d od=%d si=%d pit=%d cs=%d", oi, od, si, pit, cs)
+}
+
+// hashOracle is the name-hash information the model's dispatch rule needs in multi-thread mode.
+func hashOracle(n enc.Name) string {
+	if len(threads) <= 1 {
+		return ""
+	}
+	k := uint64(len(threads))
+	ph := n.PrefixHash()
+	parts := make([]string, len(ph))
+	for i, h := range ph {
+		parts[i] = strconv.FormatUint(h%k, 10)
+	}
+	return fmt.Sprintf(" | th=%d ph=%s", n.Hash()%k, strings.Join(parts, ","))
 }
 
 // render formats and clears the recorded sends.
@@ -239,8 +290,8 @@ func render() string {
 				hop = strconv.Itoa(int(*p.Interest.HopLimitV))
 			}
 			tok := common.Hex(s.token)
-			if len(s.token) == 6 && s.token[0] == 0 && s.token[1] == 0 {
-				v := binary.BigEndian.Uint32(s.token[2:])
+			if len(s.token) == 6 && int(binary.BigEndian.Uint16(s.token)) < len(threads) {
+				v := uint64(binary.BigEndian.Uint16(s.token))<<32 | uint64(binary.BigEndian.Uint32(s.token[2:]))
 				l, ok := labels[v]
 				if !ok {
 					l = len(labelVal)
@@ -305,12 +356,12 @@ func doInterest(f []string) string {
 	if v, ok := optU(f[9]); ok {
 		nh = utils.IdPtr(v)
 	}
-	if !inject(faceID, wire, itok, nh) {
+	if !inject(faceID, wire, itok, nh) && len(threads) == 1 {
 		pkt := &defn.Pkt{Name: l3.Interest.NameV, L3: l3, Raw: wire, IncomingFaceID: utils.IdPtr(faceID), PitToken: itok, NextHopFaceID: nh}
 		th.QueueInterest(pkt)
 	}
 	synctest.Wait()
-	return render() + " | " + counters()
+	return render() + " | " + counters() + hashOracle(name)
 }
 
 func doData(f []string) string {
@@ -342,7 +393,8 @@ func doData(f []string) string {
 			}
 		}
 		tok = make([]byte, 6)
-		binary.BigEndian.PutUint32(tok[2:], labelVal[l])
+		binary.BigEndian.PutUint16(tok, uint16(labelVal[l]>>32))
+		binary.BigEndian.PutUint32(tok[2:], uint32(labelVal[l]))
 	default:
 		tok = common.UnHex(f[5])
 	}
@@ -355,12 +407,12 @@ func doData(f []string) string {
 	if err != nil || l3.Data == nil {
 		return "err-parse"
 	}
-	if !inject(faceID, wire, tok, nil) {
+	if !inject(faceID, wire, tok, nil) && len(threads) == 1 {
 		pkt := &defn.Pkt{Name: l3.Data.NameV, L3: l3, Raw: wire, IncomingFaceID: utils.IdPtr(faceID), PitToken: tok}
 		th.QueueData(pkt)
 	}
 	synctest.Wait()
-	return render() + " | " + counters()
+	return render() + " | " + counters() + hashOracle(name)
 }
 
 var stratName = map[string]string{
@@ -467,7 +519,7 @@ func classify(kind, addr string) string {
 func Exec(op string) string {
 	f := common.Fields(op)
 	if f[0] == "new" {
-		if len(f) != 6 && len(f) != 7 {
+		if len(f) < 6 || len(f) > 8 {
 			return "bad-op"
 		}
 		return newHistory(f)
@@ -557,7 +609,12 @@ func Exec(op string) string {
 	case "adv":
 		time.Sleep(time.Duration(common.Atou(f[1])))
 		synctest.Wait()
-		return fmt.Sprintf("pit=%d cs=%d", th.GetNumPitEntries(), th.GetNumCsEntries())
+		pit, cs := 0, 0
+		for _, t := range threads {
+			pit += t.GetNumPitEntries()
+			cs += t.GetNumCsEntries()
+		}
+		return fmt.Sprintf("pit=%d cs=%d", pit, cs)
 	case "I":
 		if len(f) != 11 {
 			return "bad-op"
